@@ -37,6 +37,9 @@ type EnvCase struct {
 	GDot     [][]KV   `json:"gdot"`
 	TDot     [][]KV   `json:"tdot"`
 	TEnv     []KV     `json:"tenv"`
+	// names of GEnv / TEnv written as {sh: echo VALUE} instead of VALUE
+	GEnvSh   []string `json:"genv_sh,omitempty"`
+	TEnvSh   []string `json:"tenv_sh,omitempty"`
 	Probes   []string `json:"probes"`
 	ObsEnv   []string `json:"obs_env"`
 	ObsTmpl  []string `json:"obs_tmpl"`
@@ -87,14 +90,38 @@ func GenEnvCase(mask, mask2 int, exp bool) *EnvCase {
 	return c
 }
 
-func GenRandomEnvCase(r *rand.Rand) *EnvCase {
-	return GenEnvCase(r.Intn(1<<NESites), r.Intn(1<<NESites), r.Intn(2) == 0)
+// WithSh marks entries of the env: blocks as sh: valued: all of them, or each with probability 1/2.
+func (c *EnvCase) WithSh(r *rand.Rand) *EnvCase {
+	for _, kv := range c.GEnv {
+		if r == nil || r.Intn(2) == 0 {
+			c.GEnvSh = append(c.GEnvSh, kv.K)
+		}
+	}
+	for _, kv := range c.TEnv {
+		if r == nil || r.Intn(2) == 0 {
+			c.TEnvSh = append(c.TEnvSh, kv.K)
+		}
+	}
+	return c
 }
 
-func kvMap(kvs []KV) string {
+func GenRandomEnvCase(r *rand.Rand) *EnvCase {
+	c := GenEnvCase(r.Intn(1<<NESites), r.Intn(1<<NESites), r.Intn(2) == 0)
+	if r.Intn(2) == 0 {
+		c.WithSh(r)
+	}
+	return c
+}
+
+func kvMap(kvs []KV, shs []string) string {
 	es := make([]Entry, len(kvs))
 	for i, kv := range kvs {
 		es[i] = lit(kv.K, kv.V)
+		for _, n := range shs {
+			if n == kv.K {
+				es[i] = shv(kv.K, "echo "+kv.V)
+			}
+		}
 	}
 	return yamlMap(es)
 }
@@ -107,13 +134,13 @@ func (c *EnvCase) Run() error {
 	defer os.RemoveAll(root)
 	var sb strings.Builder
 	sb.WriteString("version: '3'\n")
-	if m := kvMap(c.GEnv); m != "" {
+	if m := kvMap(c.GEnv, c.GEnvSh); m != "" {
 		sb.WriteString("env: " + m + "\n")
 	}
 	// a dotenv file that defines nothing is still listed (and exists, empty) for half of the masks; a missing file is skipped by Task
 	sb.WriteString("dotenv: ['g1.env', 'g2.env']\n")
 	sb.WriteString("tasks:\n  show:\n    dotenv: ['t1.env', 't2.env']\n")
-	if m := kvMap(c.TEnv); m != "" {
+	if m := kvMap(c.TEnv, c.TEnvSh); m != "" {
 		sb.WriteString("    env: " + m + "\n")
 	}
 	var cmds []string
@@ -167,7 +194,8 @@ func (c *EnvCase) Run() error {
 }
 
 func (c *EnvCase) Coq() string {
-	ec := fmt.Sprintf("{| n_os := %s; n_exp := %s; n_genv := %s; n_gdot := %s; n_tdot := %s; n_tenv := %s; n_probes := %s |}",
-		coqVars(c.OS), cg.Bool(c.Exp), coqVars(c.GEnv), coqVarsList(c.GDot), coqVarsList(c.TDot), coqVars(c.TEnv), cg.StrList(c.Probes))
+	ec := fmt.Sprintf("{| n_os := %s; n_exp := %s; n_genv := %s; n_gdot := %s; n_tdot := %s; n_tenv := %s; n_genv_sh := %s; n_tenv_sh := %s; n_probes := %s |}",
+		coqVars(c.OS), cg.Bool(c.Exp), coqVars(c.GEnv), coqVarsList(c.GDot), coqVarsList(c.TDot), coqVars(c.TEnv),
+		cg.StrList(c.GEnvSh), cg.StrList(c.TEnvSh), cg.StrList(c.Probes))
 	return fmt.Sprintf("{| er_case := %s; er_env := %s; er_tmpl := %s |}", ec, cg.StrList(c.ObsEnv), cg.StrList(c.ObsTmpl))
 }
